@@ -553,6 +553,36 @@ func lightSection(r *vlib.Run) {
 		idx := 0
 		kind := c.Index % 4
 		lr := randLight(rng, kind, 0, &idx)
+		if j, ok := lr.(*joinedRef); ok && rng.Intn(3) == 0 {
+			// the parts emit different colours of exactly the same total (R+G+B): channel values in
+			// eighths, so every sum is exact whatever the order of addition
+			n := 0
+			var recolour func(x lightRef)
+			recolour = func(x lightRef) {
+				if jj, ok := x.(*joinedRef); ok {
+					for _, y := range jj.subs {
+						recolour(y)
+					}
+					return
+				}
+				n++
+				cx := float64(n) * 0.25
+				cy := float64(rng.Intn(int((4-cx)*8)+1)) / 8
+				em := C3{X: cx, Y: cy, Z: 4 - cx - cy}
+				switch l := x.(type) {
+				case *sphereRef:
+					l.em = em
+				case *cylRef:
+					l.em = em
+				case *meshRef:
+					l.em = em
+				}
+			}
+			recolour(j)
+			if n <= 15 {
+				c.Count("light.joined.cases_with_parts_of_equal_channel_sum", 1)
+			}
+		}
 		light := lr.build()
 		kname := []string{"sphere", "cylinder", "mesh", "joined"}[kind]
 		c.Count("light."+kname+".cases", 1)
